@@ -170,6 +170,10 @@ class Ctx:
             site_locs += ["sink " + loc(f["blocks"][b]["term"]) for b in sorted(targets)]
         if start is None:
             starts = [0]
+        elif isinstance(start, (list, tuple, set)) and all(isinstance(x, int) for x in start):
+            starts = list(start)
+            if not starts:
+                return self.lost(rid, "R1", key, d, "no start blocks in %s" % key)
         else:
             strx = pat(start)
             sb = [bi for bi, t in F.calls(key) if call_matches(t, strx) and (start_where is None or self._where(f, t, start_where))]
@@ -182,6 +186,45 @@ class Ctx:
             return self.record(rid, "R1", key, d, "hold", site_locs)
         return self.record(rid, "R1", key, d, "violation", site_locs,
                            ["path avoiding the success edge of `%s`:" % require] + path_locs(f, p), key_detail=str(require))
+
+    def never(self, rid, fn, start, forbidden, forbidden_where=None, desc=None, dead_errors=False):
+        """From `start` (block list or call pattern; None = entry) no call matching `forbidden` is reachable."""
+        F = self.F
+        d = desc or "%s: %s unreachable" % (short(fn, 2), forbidden)
+        key = self.getfn(fn)
+        if key is None:
+            return self.lost(rid, "R1", fn, d, "function not found: " + fn)
+        f = F.fns[key]
+        if start is None:
+            starts = [0]
+        elif isinstance(start, (list, tuple, set)):
+            starts = list(start)
+            if not starts:
+                return self.lost(rid, "R1", key, d, "no start blocks in %s" % key)
+        else:
+            strx = pat(start)
+            sb = [bi for bi, t in F.calls(key) if call_matches(t, strx)]
+            if not sb:
+                return self.lost(rid, "R1", key, d, "no start call matching %s" % (start,))
+            starts = [f["blocks"][b]["term"]["t"] for b in sb if f["blocks"][b]["term"]["t"] >= 0]
+        frx = pat(forbidden)
+        targets = {bi for bi, t in F.calls(key) if call_matches(t, frx) and (forbidden_where is None or self._where(f, t, forbidden_where))}
+        p = reach(f, starts, targets, (), error_exit_blocks(f) if dead_errors else ())
+        if p is None:
+            return self.record(rid, "R1", key, d, "hold", [fn_loc(f)] + [loc(f["blocks"][b]["term"]) for b in sorted(targets)][:3])
+        return self.record(rid, "R1", key, d, "violation", [loc(f["blocks"][p[-1]]["term"])], ["forbidden call reachable:"] + path_locs(f, p), key_detail="never:" + str(forbidden))
+
+    def arm_blocks(self, fn, cond, value):
+        """Target blocks of the switch whose rendered discriminant matches regex `cond`, for arm `value` ('else' for otherwise)."""
+        key = self.getfn(fn)
+        if key is None:
+            return []
+        out = []
+        for bi, e, arms, els in self.guards(key):
+            if re.search(cond, render(e)):
+                am = dict(arms)
+                out.append(els if value == "else" else am.get(str(value), els))
+        return out
 
     def r1_all(self, rid, fn, requires, **kw):
         ok = True
@@ -508,3 +551,217 @@ def _has(atomset, required):
         elif r not in atomset:
             return False
     return True
+
+
+# ---------------------------------------------------------------------- R6 result discipline
+LOGM = {"debug", "trace", "info", "warn", "error", "write", "writeln", "format", "println", "eprintln", "log"}
+
+
+def _uses(fn):
+    u = fn.get("_uses")
+    if u is not None:
+        return u
+    uses = collections.Counter()
+
+    def use_pl(pl):
+        uses[pl["l"]] += 1
+        for p in pl["p"]:
+            if isinstance(p, dict) and "idx" in p:
+                uses[p["idx"]] += 1
+
+    def use_op(o):
+        if o and o.get("k") in ("copy", "move"):
+            use_pl(o["pl"])
+
+    for b in fn["blocks"]:
+        if b["cleanup"]:
+            continue
+        for st in b["st"]:
+            if st["k"] == "assign":
+                rv = st["rv"]
+                for f in ("a", "b"):
+                    if f in rv and isinstance(rv[f], dict) and "k" in rv[f]:
+                        use_op(rv[f])
+                if "pl" in rv:
+                    use_pl(rv["pl"])
+                for o in rv.get("ops", []):
+                    use_op(o)
+                if st["dst"]["p"]:
+                    use_pl(st["dst"])
+        t = b["term"]
+        if t["k"] == "call":
+            for a in t["args"]:
+                use_op(a)
+            if "indirect" in t:
+                use_op(t["indirect"])
+        elif t["k"] == "switch":
+            use_op(t["d"])
+        elif t["k"] == "assert":
+            use_op(t["cond"])
+    fn["_uses"] = uses
+    return uses
+
+
+def dropped_results(F, crates, watch=None):
+    """Calls whose Result destination is never read: [(fn key, block, callee short, ordinal)]"""
+    out = []
+    for crate in crates:
+        for k in F.by_crate.get(crate, []):
+            fn = F.fns[k]
+            uses = _uses(fn)
+            ordn = collections.Counter()
+            for bi, b in enumerate(fn["blocks"]):
+                t = b["term"]
+                if t["k"] != "call" or b["cleanup"] or t["dst"]["p"]:
+                    continue
+                d = t["dst"]["l"]
+                if d == 0 or not is_result_ty(fn["locals"][d]["s"]):
+                    continue
+                if uses[d]:
+                    continue
+                sp = t.get("span", {})
+                if set(sp.get("macros", [])) & LOGM:
+                    continue
+                names = callee_names(t)
+                if watch is not None and not any(watch.search(n) for n in names):
+                    continue
+                cs = short(names[0], 2) if names else "indirect"
+                ordn[cs] += 1
+                out.append((k, bi, cs, ordn[cs]))
+    return out
+
+
+def r6(ctx, rid, crates, allowed, watch=None, desc=None, floor_checked=None):
+    """No Result returned to a function of `crates` is discarded, except the frozen, reasoned sites in `allowed`
+    (keys `fn|callee|ordinal`)."""
+    F = ctx.F
+    d = desc or "no discarded Result in %s" % ",".join(crates)
+    found = dropped_results(F, crates, pat(watch) if watch else None)
+    nres = 0
+    for crate in crates:
+        for k in F.by_crate.get(crate, []):
+            fn = F.fns[k]
+            for b in fn["blocks"]:
+                t = b["term"]
+                if t["k"] == "call" and not b["cleanup"] and not t["dst"]["p"] and is_result_ty(fn["locals"][t["dst"]["l"]]["s"]):
+                    nres += 1
+    ctx.stats["call_sites"] += nres
+    ctx.stats["result_calls_checked"] += nres
+    ok = True
+    seen = set()
+    for (k, bi, cs, n) in found:
+        key = "%s|%s|%d" % (k, cs, n)
+        seen.add(key)
+        f = F.fns[k]
+        if key in allowed:
+            continue
+        ok = False
+        ctx.record(rid, "R6", k, d, "violation", [loc(f["blocks"][bi]["term"])],
+                   ["the Result of %s is discarded in %s" % (cs, k)], key_detail="dropped:%s#%d" % (cs, n))
+    if floor_checked is not None and nres < floor_checked:
+        ok = False
+        ctx.record(rid, "R6", None, d, "anchor-lost", [], ["only %d Result-returning calls seen, floor %d" % (nres, floor_checked)], key_detail="anchor-lost")
+    if ok:
+        ctx.record(rid, "R6", None, d + " (%d Result-returning calls checked, %d frozen discards)" % (nres, len(seen & set(allowed))), "hold",
+                   ["%s: %s" % (k, allowed[k]) for k in sorted(seen & set(allowed))][:8])
+    stale = sorted(set(allowed) - seen)
+    if stale:
+        ctx.notes.append("R6 allow-list entries no longer matched (harmless): %s" % stale)
+    return ok
+
+
+Ctx.r6 = r6
+
+
+def r2_assign(ctx, rid, fn, field, must=(), desc=None, floor=1, sink=None):
+    """fn assigns to a place ending in `.field` a value whose atoms ⊇ must (at least `floor` such assignments);
+    with sink='return'/'ok': every path to the sink passes one of them."""
+    F = ctx.F
+    d = desc or "%s: .%s := value derived from %s" % (short(fn, 2), field, list(must))
+    key = ctx.getfn(fn)
+    if key is None:
+        return ctx.lost(rid, "R2", fn, d, "function not found: " + fn)
+    f = F.fns[key]
+    ex = Exprs(f)
+    hits = []
+    for bi, b in enumerate(f["blocks"]):
+        if b["cleanup"] or bi not in live_blocks(f):
+            continue
+        for st in b["st"]:
+            if st["k"] != "assign" or not st["dst"]["p"]:
+                continue
+            last = [p for p in st["dst"]["p"] if p != "*"]
+            if not last or not isinstance(last[-1], dict) or last[-1].get("f") != field:
+                continue
+            e = ex.rvalue(st["rv"], 0, ())
+            if _has(atoms(e), must):
+                hits.append((bi, "%s:%s .%s := %s" % (f["span"]["file"], st.get("line"), field, render(e)[:120])))
+        t = b["term"]
+        if t["k"] == "call" and t["dst"]["p"]:
+            last = [p for p in t["dst"]["p"] if p != "*"]
+            if last and isinstance(last[-1], dict) and last[-1].get("f") == field:
+                e = ex.call(t, 0, ())
+                if _has(atoms(e), must):
+                    hits.append((bi, "%s .%s := %s" % (loc(t), field, render(e)[:120])))
+    if len(hits) < floor:
+        return ctx.record(rid, "R2", key, d, "violation", [fn_loc(f)], ["%d matching assignments, need %d" % (len(hits), floor)], key_detail="assign:" + field)
+    if sink:
+        targets = return_blocks(f)
+        dead = set(error_exit_blocks(f)) if sink == "ok" else set()
+        p = reach(f, [0], targets, (), dead | {h[0] for h in hits})
+        if p is not None:
+            return ctx.record(rid, "R2", key, d, "violation", [h[1] for h in hits], ["exit reachable without the assignment:"] + path_locs(f, p), key_detail="assign-bypass:" + field)
+    ctx.stats["guards"] += len(hits)
+    return ctx.record(rid, "R2", key, d, "hold", [h[1] for h in hits])
+
+
+Ctx.r2_assign = r2_assign
+
+
+def cg_reach(ctx, roots, forbidden, stop=None, depth=12):
+    """Polymorphic call-graph reachability over workspace functions (static callee + resolved callee + closure args).
+    Returns a witness chain [(fn, call loc)] to a call matching `forbidden`, or None."""
+    F = ctx.F
+    frx = pat(forbidden)
+    srx = pat(stop) if stop else None
+    seen = {}
+    q = collections.deque()
+    for r in roots:
+        seen[r] = None
+        q.append((r, 0))
+    while q:
+        k, dpt = q.popleft()
+        fn = F.fns[k]
+        for bi, t in F.calls(k):
+            if call_matches(t, frx):
+                chain = [(k, loc(t))]
+                c = k
+                while seen[c] is not None:
+                    c, l = seen[c]
+                    chain.append((c, l))
+                return list(reversed(chain))
+            if dpt >= depth:
+                continue
+            for n in callee_names(t) + t["ncallables"]:
+                if n in F.fns and n not in seen and not (srx and srx.search(n)):
+                    seen[n] = (k, loc(t))
+                    q.append((n, dpt + 1))
+    ctx.stats["cg_nodes"] += len(seen)
+    return None
+
+
+def no_reach_cg(ctx, rid, roots, forbidden, stop=None, desc=None):
+    d = desc or "%s never reach %s" % ([short(r, 2) for r in roots], forbidden)
+    keys = []
+    for r in roots:
+        k = ctx.getfn(r)
+        if k is None:
+            return ctx.lost(rid, "R4", r, d, "function not found: " + r)
+        keys.append(k)
+    w = cg_reach(ctx, keys, forbidden, stop)
+    if w is None:
+        return ctx.record(rid, "R4", None, d, "hold", [fn_loc(ctx.F.fns[k]) for k in keys])
+    return ctx.record(rid, "R4", w[0][0], d, "violation", [w[-1][1]], ["call chain:"] + ["%s @ %s" % x for x in w], key_detail="reach:%s" % (forbidden,))
+
+
+Ctx.no_reach_cg = no_reach_cg
